@@ -1,7 +1,7 @@
 use std::rc::Rc;
 
 use jrsonnet_gcmodule::{Acyclic, Trace};
-use jrsonnet_ir::function::FunctionSignature;
+use jrsonnet_ir::function::{FunctionSignature, ParamName};
 use jrsonnet_ir::{ExprParams, IStr};
 use rustc_hash::{FxHashMap, FxHashSet};
 
@@ -51,6 +51,14 @@ pub fn prepare_call(
 ) -> Result<PreparedCall> {
 	if unnamed > params.len() {
 		bail!(TooManyArgsFunctionHas(params.len(), params))
+	}
+	// Two parameters with one name cannot be bound consistently
+	for (i, param) in params.iter().enumerate() {
+		if let ParamName::Named(name) = param.name() {
+			if params.iter().skip(i + 1).any(|other| other.name() == name) {
+				bail!(DuplicateLocalVar(name.clone()));
+			}
+		}
 	}
 
 	// More named arguments than parameters is reported below as an unknown/duplicate parameter
